@@ -411,7 +411,12 @@ let lp_main guard path tablepath needpath =
               end in
             pending := Some ("RECV", [], check))
       | "ORDER" :: _ | "PRE" :: _ -> ()
-      | ["HC"; _; a; b] ->
+      | ["HC"; _; a; b; _; vd] when a = "0" && b = "0" && vd <> "0" ->
+          flush_pending ();
+          (match !cur with Some c ->
+             oracle c.lid "view-detached-from-raw" (Printf.sprintf "%s delivered Interest(s): decrementing the HopLimit through the parsed packet (as the forwarding thread does) did not change pkt.Raw (what the outgoing face sends): the parsed view and the delivered bytes are different buffers" vd)
+           | None -> ())
+      | "HC" :: _ :: a :: b :: _ ->
           flush_pending ();
           (match !cur with Some c when a <> "0" || b <> "0" ->
              oracle c.lid "held-packet-changed" (Printf.sprintf "packets queued to the forwarding threads changed after delivery (%s changed their bytes, %s their name): they alias the receive buffer, which the transport reuses for the next frame" a b)
